@@ -60,7 +60,15 @@ class C20(Harness):
         k = cell["kind"]
         inp = {"s0": ctx.fresh_int("s0"), "y": fresh_reals(ctx, "y", 4)}
         if k == "unsorted-index":
-            inp["labels"] = fresh_ints(ctx, "l", 3)
+            inp["as_range"] = bool(ctx.fresh_bool("as_range"))
+            if inp["as_range"]:
+                # a RangeIndex with an arbitrary non-zero step (descending ranges are unsorted time indices)
+                st = ctx.fresh_int("step")
+                ctx.assume((st >= -2) & (st <= 2) & (st != 0))
+                inp["step"] = int(st)
+                inp["labels"] = [inp["s0"] + i * inp["step"] for i in range(3)]
+            else:
+                inp["labels"] = fresh_ints(ctx, "l", 3)
         elif k == "x-index-differs":
             inp["dx"] = fresh_ints(ctx, "dx", 3)
         elif k in ("fh-duplicate", "fh-differs-from-fit"):
@@ -157,7 +165,10 @@ class C20(Harness):
             return eps
 
         if k == "unsorted-index":
-            y = pd.Series(inp["y"][:3], index=pd.Index(inp["labels"]))
+            if inp.get("as_range"):
+                y = pd.Series(inp["y"][:3], index=pd.RangeIndex(s0, s0 + 3 * inp["step"], inp["step"]))
+            else:
+                y = pd.Series(inp["y"][:3], index=pd.Index(inp["labels"]))
             out["eps"] = entry_points(y)
         elif k == "empty-index":
             y = pd.Series([], index=pd.Index([], dtype=int) if W.kind == "conc" else pd.Int64Index([]), dtype=float)
@@ -244,6 +255,11 @@ class C20(Harness):
             out["naive.sp"] = attempt(lambda: g.fit(good), lambda: g.is_fitted)
             out["sliding"] = attempt(lambda: list(sp.SlidingWindowSplitter(fh=1, window_length=w).split(good)))
             out["expanding"] = attempt(lambda: list(sp.ExpandingWindowSplitter(fh=1, initial_window=w).split(good)))
+            # starting with an empty window does not waive the requirement that a full window plus horizon fits
+            out["sliding.nostart"] = attempt(lambda: list(sp.SlidingWindowSplitter(fh=1, window_length=w, start_with_window=False).split(good)))
+            h = NF("last").fit(good)
+            later = pd.Series(list(inp["y"]), index=pd.RangeIndex(s0 + 4, s0 + 8))
+            out["update_predict"] = attempt(lambda: h.update_predict(later, sp.SlidingWindowSplitter(fh=1, window_length=w, start_with_window=False)))
             r = red.make_reduction(Reg(), strategy="recursive", window_length=w)
             out["reduction"] = attempt(lambda: r.fit(good), lambda: r.is_fitted)
             out["cutoff"] = attempt(lambda: list(sp.CutoffSplitter(np.array([w - 1]), fh=1, window_length=1).split(good)))
@@ -373,6 +389,8 @@ class C20(Harness):
             verdict("naive.sp", out["naive.sp"], w > n)
             verdict("sliding", out["sliding"], w + 1 > n)
             verdict("expanding", out["expanding"], w + 1 > n)
+            verdict("sliding.nostart", out["sliding.nostart"], w + 1 > n)
+            verdict("update_predict", out["update_predict"], w + 1 > n)
             verdict("reduction", out["reduction"], w + 1 > n)
             verdict("cutoff", out["cutoff"], (w - 1) + 1 > n - 1)
         elif k in ("unknown-strategy", "ill-formed-composite"):
